@@ -1,7 +1,7 @@
 """C39 — sftpsim (DESIGN §4 C39)."""
 from engines import sftpsim
 PROPERTY = "C39"
-ENGINE = "sftpsim (consumer class) + sftpsim/handle over gridsim"
+ENGINE = "sftpsim"
 LEVEL = "exploration"
 COUNTS = {"quick": 7200, "thorough": 300000}
 CHUNK = 200
